@@ -4,6 +4,9 @@ import (
 	"fmt"
 	"io"
 	"math"
+	"os"
+	"path"
+	"path/filepath"
 	"sort"
 	"strings"
 	"testing/fstest"
@@ -40,6 +43,7 @@ type zoneCase struct {
 	// only when the zone has no $INCLUDE: the include gate may be configured either way
 	AllowAnyway bool
 	FSAnyway    bool
+	UseOS       bool // lay the include tree out as real files under a scratch directory (no include FS)
 	Renderings  []rendering
 	Classes     []string // rendering devices and line shapes used (histogram only)
 }
@@ -49,6 +53,63 @@ type onlyReader struct{ r io.Reader }
 func (o onlyReader) Read(p []byte) (int, error) { return o.r.Read(p) }
 
 // parseZone runs the library parser over one rendering and collects everything it returns.
+const decoyText = "decoy.invalid. 300 IN A 10.9.9.9\n"
+
+// decoys: files that no $INCLUDE of the model names, with the base name of a model file, in
+// every other directory the tree knows (directories of files, their ancestors, directories as
+// written in $INCLUDE lines). A parser that resolves a relative path against the wrong directory
+// reads one of them (or nothing).
+func decoys(z *zm.Zone) []string {
+	dirs := map[string]bool{".": true}
+	addDir := func(d string) {
+		for d != "." && d != "/" && d != "" && !strings.HasPrefix(d, "..") {
+			dirs[d] = true
+			d = path.Dir(d)
+		}
+	}
+	names := z.FileNames()
+	for _, f := range names {
+		addDir(path.Dir(f))
+		for _, it := range z.FileItems(f) {
+			if it.Kind == zm.KInclude {
+				addDir(path.Dir(strings.TrimLeft(path.Clean(it.File), "/")))
+			}
+		}
+	}
+	have := map[string]bool{}
+	for _, f := range names {
+		have[f] = true
+	}
+	var ds []string
+	for d := range dirs {
+		ds = append(ds, d)
+	}
+	sort.Strings(ds)
+	var out []string
+	for _, f := range names[1:] {
+		for _, d := range ds {
+			if c := path.Join(d, path.Base(f)); !have[c] {
+				have[c] = true
+				out = append(out, c)
+			}
+		}
+	}
+	return out
+}
+
+// osEligible: the include tree can be laid out under a scratch directory and read through
+// os.Open (no $INCLUDE names an absolute path).
+func osEligible(z *zm.Zone) bool {
+	for _, f := range z.FileNames() {
+		for _, it := range z.FileItems(f) {
+			if it.Kind == zm.KInclude && strings.HasPrefix(it.File, "/") {
+				return false
+			}
+		}
+	}
+	return len(z.Files) > 0
+}
+
 func parseZone(c *zoneCase, files map[string]string, limit int) ([]dns.RR, error) {
 	top := files[c.Zone.FileName]
 	var rd io.Reader = strings.NewReader(top)
@@ -58,19 +119,58 @@ func parseZone(c *zoneCase, files map[string]string, limit int) ([]dns.RR, error
 	case 2:
 		rd = iotest.OneByteReader(onlyReader{rd})
 	}
-	zp := dns.NewZoneParser(rd, c.OriginText, c.Zone.FileName)
+	fileName := c.Zone.FileName
+	useOS := c.UseOS && osEligible(&c.Zone)
+	if useOS {
+		// real files under a scratch directory; includes are resolved by the parser's os.Open
+		// path. Every path stays inside the scratch directory ("../" never leaves the model's
+		// root, absolute paths are excluded by osEligible).
+		base := os.Getenv("VERIF_OUT") // the driver's scratch directory (wiped after the run)
+		if base != "" {
+			if err := os.MkdirAll(base, 0o755); err != nil {
+				base = ""
+			}
+		}
+		root, err := os.MkdirTemp(base, "c06-os")
+		if err != nil {
+			return nil, fmt.Errorf("harness: %v", err)
+		}
+		defer os.RemoveAll(root)
+		write := func(name, txt string) error {
+			full := filepath.Join(root, filepath.FromSlash(name))
+			if err := os.MkdirAll(filepath.Dir(full), 0o755); err != nil {
+				return err
+			}
+			return os.WriteFile(full, []byte(txt), 0o644)
+		}
+		for name, txt := range files {
+			if err := write(name, txt); err != nil {
+				return nil, fmt.Errorf("harness: %v", err)
+			}
+		}
+		for _, d := range decoys(&c.Zone) {
+			if err := write(d, decoyText); err != nil {
+				return nil, fmt.Errorf("harness: %v", err)
+			}
+		}
+		fileName = filepath.Join(root, filepath.FromSlash(c.Zone.FileName))
+	}
+	zp := dns.NewZoneParser(rd, c.OriginText, fileName)
 	if c.Zone.HasDefTTL {
 		zp.SetDefaultTTL(c.Zone.DefTTL)
 	}
 	if len(c.Zone.Files) > 0 || c.AllowAnyway {
 		zp.SetIncludeAllowed(true)
 	}
-	if len(c.Zone.Files) > 0 || c.FSAnyway {
+	if !useOS && (len(c.Zone.Files) > 0 || c.FSAnyway) {
 		m := fstest.MapFS{}
 		for name, txt := range files {
 			if name != c.Zone.FileName {
 				m[name] = &fstest.MapFile{Data: []byte(txt)}
 			}
+		}
+		for _, d := range decoys(&c.Zone) {
+			m[d] = &fstest.MapFile{Data: []byte(decoyText)}
 		}
 		zp.SetIncludeFS(m)
 	}
@@ -176,6 +276,19 @@ func modelClasses(z *zm.Zone) []string {
 				}
 			case zm.KInclude:
 				seen["dir:$INCLUDE"] = true
+				if it.ViaGenerate {
+					seen["inc:via-generate"] = true
+				}
+				switch {
+				case strings.HasPrefix(it.File, "/"):
+					seen["inc:path-absolute"] = true
+				case strings.HasPrefix(it.File, "../"):
+					seen["inc:path-parent"] = true
+				case strings.Contains(it.File, "/"):
+					seen["inc:path-subdir"] = true
+				default:
+					seen["inc:path-same-dir"] = true
+				}
 				if it.HasIncOrigin {
 					seen["inc:origin-stated"] = true
 				} else {
@@ -188,7 +301,16 @@ func modelClasses(z *zm.Zone) []string {
 	for _, f := range z.Files {
 		walk(f)
 	}
-	seen[fmt.Sprintf("inc:depth=%d", includeDepth(z, z.Items, 0))] = true
+	seen[fmt.Sprintf("inc:depth=%d", includeDepth(z, z.FileName, 0))] = true
+	if strings.Contains(z.FileName, "/") {
+		seen["inc:top-file-in-directory"] = true
+	}
+	if d, h := generateHops(z, z.FileName, 0); d == zm.MaxIncludeDepth && h > 0 {
+		seen["inc:depth=7-with-generate-hop"] = true
+	}
+	if nestedRelativeElsewhere(z) {
+		seen["inc:nested-relative-include-in-other-directory"] = true
+	}
 	var out []string
 	for k := range seen {
 		out = append(out, k)
@@ -197,19 +319,61 @@ func modelClasses(z *zm.Zone) []string {
 	return out
 }
 
-func includeDepth(z *zm.Zone, items []zm.Item, d int) int {
+func includeDepth(z *zm.Zone, file string, d int) int {
 	best := d
 	if d > zm.MaxIncludeDepth+1 {
 		return d
 	}
-	for _, it := range items {
+	for _, it := range z.FileItems(file) {
 		if it.Kind == zm.KInclude {
-			if x := includeDepth(z, z.Files[zm.FSName(it.File)], d+1); x > best {
+			if x := includeDepth(z, zm.ResolveInclude(file, it.File), d+1); x > best {
 				best = x
 			}
 		}
 	}
 	return best
+}
+
+// viaGenerateOnDeepestChain: the number of $GENERATE-made hops on a chain of maximal depth.
+func generateHops(z *zm.Zone, file string, d int) (depth, hops int) {
+	depth = d
+	if d > zm.MaxIncludeDepth+1 {
+		return
+	}
+	for _, it := range z.FileItems(file) {
+		if it.Kind == zm.KInclude {
+			dd, hh := generateHops(z, zm.ResolveInclude(file, it.File), d+1)
+			if it.ViaGenerate {
+				hh++
+			}
+			if dd > depth || (dd == depth && hh > hops) {
+				depth, hops = dd, hh
+			}
+		}
+	}
+	return
+}
+
+// nestedRelativeElsewhere: some included file whose resolved path differs from the text of its
+// $INCLUDE line contains a relative $INCLUDE of its own.
+func nestedRelativeElsewhere(z *zm.Zone) bool {
+	for _, f := range z.FileNames() {
+		for _, it := range z.FileItems(f) {
+			if it.Kind != zm.KInclude {
+				continue
+			}
+			r := zm.ResolveInclude(f, it.File)
+			if r == it.File {
+				continue
+			}
+			for _, in := range z.FileItems(r) {
+				if in.Kind == zm.KInclude && !strings.HasPrefix(in.File, "/") {
+					return true
+				}
+			}
+		}
+	}
+	return false
 }
 
 func textKey(c *zoneCase) []byte {
@@ -358,6 +522,7 @@ func finish(t *rapid.T, z *zm.Zone, nrender int) zoneCase {
 	c.Reader = rapid.IntRange(0, 2).Draw(t, "reader")
 	c.AllowAnyway = rapid.Bool().Draw(t, "allow")
 	c.FSAnyway = rapid.Bool().Draw(t, "fs")
+	c.UseOS = rapid.IntRange(0, 3).Draw(t, "os") == 3
 	den, err := zm.Denote(z)
 	if err != nil {
 		// generator bug: keep the case, checkZone counts it as invalid-model
@@ -395,7 +560,7 @@ func genGenerateCase(t *rapid.T) zoneCase {
 	o.NoIncludes = true
 	o.NoSamples = true
 	o.OnlyGenerate = true
-	o.BigGenerate = rapid.IntRange(0, 40).Draw(t, "big") == 40
+	o.BigGenerate = rapid.IntRange(0, 40).Draw(t, "big") >= 39
 	z := zm.GenZone(t, o)
 	return finish(t, z, 2)
 }
@@ -406,6 +571,7 @@ func genIncludeCase(t *rapid.T) zoneCase {
 	o.MaxItems = 5
 	o.NoSamples = true
 	o.IncludeHeavy = true
+	o.DeepChain = rapid.IntRange(0, 9).Draw(t, "deep") >= 8
 	z := zm.GenZone(t, o)
 	return finish(t, z, 2)
 }
